@@ -57,6 +57,12 @@ class MIADistinguisherMixin(_PartitionnedDistinguisherBaseMixin):
                 if x >= min_edge and x < max_edge:
                     # Rounding can push a sample just below the last edge to nbins: keep it in the last bin.
                     bin_idx = min(int((x - min_edge) * norm), nbins - 1)
+                    # The product above is only accurate to a few ulps (49 * (1 / 49) < 1): settle samples lying on
+                    # or next to an edge with the edges themselves, as numpy.histogram does.
+                    if x < self_bin_edges[bin_idx]:
+                        bin_idx -= 1
+                    elif bin_idx < nbins - 1 and x >= self_bin_edges[bin_idx + 1]:
+                        bin_idx += 1
                 elif x == max_edge:
                     bin_idx = nbins - 1
                 else:
